@@ -27,6 +27,7 @@ CHECKS = {
   "C16": ("vcheck", "property-based testing with a metamorphic round trip: grammar-derived documents with generated comments at every S position kind (unique texts, literals containing ';', byte strings with inner comments, CRLF); oracle = all 50 AST comment slots vs an independent comment scanner of the source (only real comments, unchanged, at most once), comment multiset of the formatted text vs attached comments, and skeleton equality after re-parsing the formatted text; proptest shrinking", "3/C16"),
   "C20": ("vcheck", "model-based property testing: grammar-derived documents (small name / literal pools so identical sub-expressions recur); reference model = own AST walk listing every (child, container) pair; oracle = parent query returns the container itself (variant + address), typed Parent::parent interface, root without parent; proptest shrinking", "3/C20"),
   "C18": ("vcheck", "differential testing of the built command-line binary against in-process library calls: generated invocations (schema file, documents over --json/--cbor/--csv/--stdin, --ci, --features, --csv-header, missing files, broken schemas, rules in front of the root) with valid / near-miss documents from the semantic generator and .feature families; oracle = library verdict per document with the same bytes and features vs success / failure lines and --ci exit status; compile-cddl vs cddl_from_str on generated and mutated texts; proptest shrinking (capped)", "3/C18"),
+  "C19": ("vcheck", "configuration testing plus differential testing across builds: cargo check of sampled (quick) or all 256 (thorough) feature sets; a driver built against 8-20 feature sets answers generated requests (parse + skeleton, format, JSON / CBOR / CSV validation of generated schemas with valid and near-miss documents, .pcre families) and all builds that provide the operation must agree; proptest shrinking", "3/C19"),
   "C14": ("vcheck", "property-based testing of error reporting: non-empty error lists, JSON locations resolved against the document, distinct error kinds per fault, determinism across repetition / 8 concurrent threads / a fresh process", "3/C14"),
 }
 
